@@ -449,7 +449,9 @@ fn small_msg() -> impl Strategy<Value = MsgSpec> {
 		2 => (0u8..8).prop_map(MsgSpec::BanReason),
 		2 => any::<u64>().prop_map(MsgSpec::GetTransaction),
 		2 => any::<u64>().prop_map(MsgSpec::TransactionKernel),
-		3 => (0u8..4, any::<u64>(), any::<u8>(), u64_edges()).prop_map(|(a, b, c, d)| MsgSpec::SegRequest(a, b, c, d)),
+		// segment heights are 0..=63: positions are 64 bit and the identifier reader refuses anything
+		// higher (fix d144945c2) — such a request is not a message the writer's peer can read back
+		3 => (0u8..4, any::<u64>(), 0u8..=63, u64_edges()).prop_map(|(a, b, c, d)| MsgSpec::SegRequest(a, b, c, d)),
 		4 => (29u8..=255, 0u16..40, any::<u64>()).prop_map(|(a, b, c)| MsgSpec::Unknown(a, b, c)),
 		3 => Just(MsgSpec::Headers(0, 0)),
 	]
@@ -770,7 +772,10 @@ fn writer_thread(mut w: TcpStream, stream: &[u8], cuts: &[usize], delays_us: &[u
 		}
 		if !delays_us.is_empty() && i + 1 < bounds.len() {
 			let d = delays_us[i % delays_us.len()] as u64;
-			if d > 0 && slept + d <= DELAY_BUDGET_US {
+			if d >= 1_000_000 {
+				// an explicit long gap (slow-body cases): not part of the small-delay budget
+				std::thread::sleep(Duration::from_micros(d));
+			} else if d > 0 && slept + d <= DELAY_BUDGET_US {
 				slept += d;
 				std::thread::sleep(Duration::from_micros(d));
 			}
@@ -843,6 +848,9 @@ fn describe(r: &Result<Message, grin_p2p::Error>) -> String {
 
 #[derive(Default)]
 struct FragStats {
+	/// slow-body cases: a read that times out is repeated on the same codec, as the connection loop does
+	retry_timeouts: bool,
+	timeouts: u64,
 	reads: u64,
 	batches: u64,
 	max_batch: usize,
@@ -883,9 +891,17 @@ fn sent_of(case: &WireCase) -> Result<(Vec<Sent>, Vec<u8>), Fail> {
 fn read_and_compare(codec: &mut Codec, v: u32, sent: &[Sent], total: usize, st: &mut FragStats) -> Result<Once<()>, Fail> {
 	macro_rules! rd {
 		($i:expr, $t:expr) => {{
-			let (r, n) = codec.read();
+			let (mut r, n) = codec.read();
 			st.reads += 1;
 			st.bytes += n;
+			// conn.rs (try_break!) treats TimedOut / WouldBlock as "nothing yet" and reads again
+			while st.retry_timeouts && st.timeouts < 30 && matches!(&r, Err(e) if is_timeout(e)) {
+				st.timeouts += 1;
+				let (r2, n2) = codec.read();
+				st.reads += 1;
+				st.bytes += n2;
+				r = r2;
+			}
 			if let Err(e) = &r {
 				if is_timeout(e) {
 					return Ok(Once::Stall(format!("message {} ({}): {:?}", $i, tname($t), e)));
@@ -1006,6 +1022,7 @@ fn frag_once(case: &WireCase, sent: &[Sent], stream: &[u8]) -> Result<Once<FragS
 	let (w, r) = socket_pair()?;
 	let (done_tx, done_rx) = mpsc::channel::<()>();
 	let mut st = FragStats::default();
+	st.retry_timeouts = case.kind == "slow-body";
 	let (res, fired) = std::thread::scope(|sc| {
 		let cuts = &case.cuts;
 		let delays = &case.delays_us;
@@ -1945,6 +1962,36 @@ pub fn run(ctx: &Ctx) -> HResult<()> {
 	let fails = par_for(&sweep, threads, |wc| check_frag(ctx, wc, true));
 	settle(ctx, "frag", fails.into_iter().map(|(i, f)| (serde_json::to_value(&sweep[i]).unwrap(), f)).collect())?;
 	drop(sweep);
+
+	// ---- slow bodies: one gap longer than the 2 s frame-header timeout and far below the 60 s body
+	// timeout, strictly inside a message body (part of the body has arrived with the header). "Within
+	// the I/O timeouts" of the statement; the reader repeats a timed-out read as the connection loop does.
+	{
+		let n_slow = ctx.n(16, 96);
+		let mut slow: Vec<WireCase> = vec![];
+		for k in 0..n_slow {
+			let v = VERSIONS[(k % 4) as usize];
+			let specs: Vec<MsgSpec> = match k % 4 {
+				0 => vec![MsgSpec::Ping(k, 7), MsgSpec::Pong(3, k)],
+				1 => vec![MsgSpec::Headers((k * 977) as u16, 1 + (k % 40) as u16), MsgSpec::Ping(k, 1)],
+				2 => vec![MsgSpec::Unknown(201, 40 + (k % 50) as u16, k), MsgSpec::Ping(k, 2)],
+				_ => {
+					let (_, mut sp) = sample_one(ctx.derive_seed("slow", k), &short_seq_strategy());
+					sp.truncate(3);
+					sp.push(MsgSpec::Ping(k, 3));
+					sp
+				}
+			};
+			let msgs: Vec<WireMsg> = specs.iter().filter_map(|s| build_msg(s, v, p).ok()).collect();
+			let (lay, _) = layout(&msgs);
+			// the first message with a body of at least 2 bytes; the cut leaves >= 1 byte on each side
+			let Some((s0, b, _)) = lay.iter().find(|(_, b, _)| *b >= 2).cloned() else { continue };
+			let inside = 1 + (ctx.derive_seed("slowcut", k) as usize % (b - 1));
+			slow.push(WireCase { version: v, msgs, cuts: vec![s0 + HDR + inside], delays_us: vec![2_300_000], kind: "slow-body".into() });
+		}
+		let fails = par_for(&slow, 16.max(threads), |wc| check_frag(ctx, wc, true));
+		settle(ctx, "frag", fails.into_iter().map(|(i, f)| (serde_json::to_value(&slow[i]).unwrap(), f)).collect())?;
+	}
 
 	// ---- refused frames
 	let mut table = limit_table(false);
